@@ -237,6 +237,54 @@ func TestC18(t *testing.T) {
 		}
 		st.Count("interceptor_steps", 8)
 	}
+	// (ii-c) a message's parameters are its own: after a message naming subscription a, an ack-only message
+	// (no subscription field) does not match a fault on subscription=a, neither on the stream nor on a unary call
+	{
+		set := faults.NewSet(fmt.Sprintf("vt%d", Seed()))
+		sinj := mgrpc.StreamFaultInjector(set)
+		uinj := mgrpc.UnaryFaultInjector(set)
+		info := &ggrpc.StreamServerInfo{FullMethod: "/google.pubsub.v1.Subscriber/StreamingPull", IsClientStream: true, IsServerStream: true}
+		fake := &fakeServerStream{ctx: context.Background()}
+		for round := 0; round < 20; round++ {
+			fake.in = append(fake.in, &pubsubpb.StreamingPullRequest{Subscription: "a", ClientId: "c1"}, &pubsubpb.StreamingPullRequest{AckIds: []string{"x"}},
+				&pubsubpb.StreamingPullRequest{Subscription: "a"})
+		}
+		bad := ""
+		_ = sinj(nil, fake, info, func(srv interface{}, ss ggrpc.ServerStream) error {
+			for round := 0; round < 20 && bad == ""; round++ {
+				var r1, r2, r3 pubsubpb.StreamingPullRequest
+				if err := ss.RecvMsg(&r1); err != nil {
+					bad = fmt.Sprintf("round %d: a message was failed although no fault is configured: %v", round, err)
+					break
+				}
+				set.Add(faults.Description{Operation: "StreamingPull:RecvMsg", Parameters: map[string]string{"subscription": "a"}, Count: 1,
+					OnFault: func(d faults.Description, p faults.Parameters) error { return firedErr{2} }})
+				if err := ss.RecvMsg(&r2); err != nil {
+					bad = fmt.Sprintf("round %d: after a message for subscription a, an ack-only message (no subscription field) was failed by the fault {StreamingPull:RecvMsg, subscription=a}", round)
+					break
+				}
+				// a unary call without that parameter does not match either
+				_, uerr := uinj(context.Background(), &pubsubpb.GetTopicRequest{Topic: "t"}, &ggrpc.UnaryServerInfo{FullMethod: "/google.pubsub.v1.Publisher/GetTopic"},
+					func(ctx context.Context, req interface{}) (interface{}, error) { return nil, nil })
+				if uerr != nil {
+					bad = fmt.Sprintf("round %d: GetTopic failed although the only fault is on StreamingPull:RecvMsg: %v", round, uerr)
+					break
+				}
+				if cur := set.Current(); len(cur["StreamingPull:RecvMsg"]) != 1 {
+					bad = fmt.Sprintf("round %d: the fault {StreamingPull:RecvMsg, subscription=a, count 1} left the listing although no matching message has arrived: %v", round, cur)
+					break
+				}
+				if err := ss.RecvMsg(&r3); err == nil {
+					bad = fmt.Sprintf("round %d: the message for subscription a was not failed by the fault {StreamingPull:RecvMsg, subscription=a, count 1}", round)
+				}
+			}
+			return nil
+		})
+		if bad != "" {
+			violate("stale-parameters", bad, true, "stream: [sub=a] add-fault(sub=a) [ack-only] GetTopic [sub=a]")
+		}
+		st.Count("interceptor_steps", 80)
+	}
 	// (iii) racing callers on the real Set (search support for the proof, never the proof)
 	rounds := 300
 	if thorough {
